@@ -83,18 +83,25 @@ def main(argv=None):
     known_lines = []
     replay_n = [0]
     E = ev.Evidence(pid, args.tier, seed, getattr(mod, 'LEVEL', 'exploration'))
+    import shutil
+    shutil.rmtree(os.path.join(HERE, 'replays', pid), ignore_errors=True)      # replay files belong to one run
 
     # ---------------------------------------------------------------- deductive tier (P)
+    # started first and run in its own process so that it overlaps with the bounded tier
     proof = None
+    proof_future = None
+    executor = None
     targets = list(getattr(mod, 'P_TARGETS', []))
     if targets and not args.no_proof:
+        import concurrent.futures
         from pyvc import run as pyrun
-        proof = pyrun.verify_targets(targets, REPO, tier=args.tier, property_id=pid)
+        executor = concurrent.futures.ProcessPoolExecutor(1)
+        proof_future = executor.submit(pyrun.verify_targets, targets, REPO, args.tier, pid)
+
+    def collect_proof():
+        proof = proof_future.result()
+        executor.shutdown()
         E.add_proof(proof)
-        if proof['obligations'] == 0:
-            print('checker fault: zero obligations generated for %s' % pid, file=sys.stderr)
-            E.write(time.time() - t0, violations=0)
-            return 3
         for ref in proof['refuted']:
             replay_n[0] += 1
             rec = dict(ref)
@@ -103,6 +110,7 @@ def main(argv=None):
             path = _write_replay(pid, replay_n[0], rec)
             suffix = '' if ref.get('replay_confirmed') else ' no-failing-input-found'
             violations.append((path, suffix))
+        return proof
 
     # ---------------------------------------------------------------- bounded tier (B)
     bstats = None
@@ -149,6 +157,12 @@ def main(argv=None):
             violations.append((path, ''))
         E.data['coverage']['known_findings_active'] = sorted(active)
 
+    if proof_future is not None:
+        proof = collect_proof()
+        if proof['obligations'] == 0:
+            print('checker fault: zero obligations generated for %s' % pid, file=sys.stderr)
+            E.write(time.time() - t0, violations=0)
+            return 3
     for line in known_lines:
         print(line)
     for path, suffix in violations:
